@@ -77,12 +77,12 @@ let () =
       let (t, _) = parse_tree toks in
       let es = tar_entries (comps pre) (repro = "1") t in
       Printf.printf "%s ENT %s\n" id (String.concat "," (List.map show_entry es))
-    | id :: "X" :: umask :: preserve :: pre :: toks ->
+    | id :: (("X" | "XU") as k) :: umask :: preserve :: pre :: toks ->
       let (t, _) = parse_tree toks in
       let es = tar_entries (comps pre) false t in
       (* B1 = the hypotheses of the round-trip theorems hold for this tree *)
       let hyp = if is_dir t && wf_treeb t && modes_okb t && benign_tree (comps pre) t then "B1" else "B0" in
-      (match extract (comps pre) (n_of_int (int_of_string umask)) (preserve = "1") es with
+      (match extract_p (k = "X") (comps pre) (n_of_int (int_of_string umask)) (preserve = "1") es with
        | Ok f -> Printf.printf "%s %s OK %s\n" id hyp (show_fs f)
        | Err (XAbsLink | XWriteThrough) -> Printf.printf "%s UNJUDGED\n" id
        | Err e -> Printf.printf "%s %s %s\n" id hyp (show_err e))
@@ -102,7 +102,7 @@ let () =
          let eq = (tar_entries (comps pre) r ta = tar_entries (comps pre) r tb) in
          Printf.printf "%s %s\n" id (if eq then "EQ" else "NE")
        | _ -> Printf.printf "BADLINE %s\n" l)
-    | id :: "E" :: umask :: preserve :: pre :: n :: toks ->
+    | id :: (("E" | "EU") as k) :: umask :: preserve :: pre :: n :: toks ->
       let rec ents k toks acc =
         if k = 0 then List.rev acc else
         match toks with
@@ -114,7 +114,7 @@ let () =
           ents (k - 1) rest ({ e_name = comps nm; e_kind = kind; e_mode = n_of_int (int_of_string mode); e_mtime = n_of_int 0 } :: acc)
         | _ -> failwith "entries" in
       let es = ents (int_of_string n) toks [] in
-      (match extract (comps pre) (n_of_int (int_of_string umask)) (preserve = "1") es with
+      (match extract_p (k = "E") (comps pre) (n_of_int (int_of_string umask)) (preserve = "1") es with
        | Ok f -> Printf.printf "%s OK %s\n" id (show_fs f)
        | Err (XAbsLink | XWriteThrough) -> Printf.printf "%s UNJUDGED\n" id
        | Err e -> Printf.printf "%s %s\n" id (show_err e))
